@@ -6,6 +6,8 @@ spec/C11/Registers.tla is the bit-vector semantics, RegFile.tla the state machin
  replay: every behaviour is stepped through a real spsdk.utils.registers.Registers object, the projection of the real
          state (raw bits of every leaf, every bit-field value, enum view, group values, number of registers) is logged
  TV : TLC (RegFileTrace) recomputes every step and rejects a trace whose logged state differs.
+ lane "ship" (harness/c11_ship.py, spec/C11/RegFileShipGen.tla): the grouped registers the device database ships - layout read from the declarations,
+         tours emitted by TLC, replay on Registers(family, feature, base_key, revision) / FuseRegisters, decided by the same RegFileTrace.
 """
 import json
 import os
@@ -532,6 +534,11 @@ def run(tier):
     else:
         v.extra["canary"] = "skipped: the spec rejected every trace of the real code (all reported as violations)"
 
+    # ---- lane "ship": the grouped registers the device database ships (layout = the declarations, replay on Registers(family, feature, ...))
+    import c11_ship
+
+    ship = c11_ship.run_lane(v, tier, r)
+
     # ---- GEN 2: simulated long behaviours on generated layouts
     n_lay = 6 if tier == "quick" else 40
     layouts2 = [random_layout(r, big=(i % 2 == 1)) for i in range(n_lay)] + [width_layout(r)]
@@ -558,12 +565,21 @@ def run(tier):
     v.cov["rule"] = (
         f"behaviours = all action sequences of length {depth} on the tiny layout (TLC exhaustive) + {len(behs2)} simulated behaviours of "
         f"length 12 on {n_lay} generated layouts (widths 8..512, tiled bit-fields, enums, SHIFT_RIGHT processors, groups with reversed "
-        "byte order and reversed sub-register order); every behaviour is replayed on a real Registers object; distinct by (layout, action sequence)"
+        "byte order and reversed sub-register order); every behaviour is replayed on a real Registers object; distinct by (layout, action sequence); "
+        f"lane ship: every grouped register the device database declares ({ship['cases']} declarations in {ship['files']} register files of all families / revisions / "
+        f"features, {ship['layouts']} distinct layouts read from the declarations) x the tours of RegFileShipGen (full-width values through both views, one value per "
+        f"sub-register slot, members written behind the group, refusals, member bit-fields, configuration and export round trips; quick tier: all tours on the first member "
+        f"of each of the {ship['classes']} classes of byte-identical declaration + register file, the full-width and refusal tours on every declaration) = {ship['traces']} traces on "
+        "Registers(family, feature, base_key, revision) / FuseRegisters(family, revision)"
     )
     v.assumptions += [
         "hidden (reserved) registers and alternative widths are not generated (parse skips hidden registers - observation recorded under C12)",
         "reversed byte order is generated on group registers only (the only way the JSON specification can declare it)",
         "sub-registers of groups have zero reset values (reset of a group register is not defined by the property)",
+        "lane ship: on groups that declare alternative widths only values that occupy the declared width in both views are written (what a shorter value means there is "
+        "not modelled); export -> parse is driven only on register files that declare a memory image (every register its own byte range: PFR, FCF, some fuse maps); "
+        "reset operations are not driven on shipped groups; the number of registers of a shipped file is taken from the object as constructed (asserted constant, not its value); "
+        "register files without grouped registers are not driven (their data nits - overlaps, bit-fields not tiling, duplicate names - are C12's Layout clauses)",
     ]
     return v.finish()
 
@@ -572,6 +588,23 @@ def replay(path):
     import_spsdk()
     w = json.load(open(path))["witness"]
     layout = w["layout"]
+    if w.get("case"):                                  # lane ship: the real object comes from the device database
+        import c11_ship
+
+        sc = scratch()
+        f = os.path.join(sc, "replay-layout.json")
+        layout = c11_ship.layout_of_case(w["case"]) or layout          # the layout is re-read from the declarations of the tree under test
+        json.dump([layout], open(f, "w"))
+        hist = [{k: x for k, x in e.items() if k not in ("post", "refused")} for e in w["trace"]["ev"][1:] if e["a"] != "Crash"]
+        t = c11_ship.replay_tour(c11_ship.make_real_class(), w["case"], layout, 1, hist, w["trace"]["id"], rng(PROP, "replay"))
+        rej, _ = tlc.tv("C11", "RegFileTrace", [t], env={"LAYOUT_FILE": f, "MENU": "full"})
+        if rej:
+            k = list(rej.values())[0]
+            say(f"VIOLATION property=C11 replay={path}")
+            say(f"  rejected at event {k[0] + 1}: {json.dumps(t['ev'][min(k[0], len(t['ev']) - 1)])[:400]}")
+            return 1
+        say("replay: trace accepted by the spec")
+        return 0
     sc = scratch()
     f = os.path.join(sc, "replay-layout.json")
     json.dump([layout], open(f, "w"))
@@ -581,7 +614,7 @@ def replay(path):
     rej, _ = tlc.tv("C11", "RegFileTrace", [t], env={"LAYOUT_FILE": f, "MENU": "full"})
     if rej:
         say(f"VIOLATION property=C11 replay={path}")
-        say(f"  rejected at event {rej[0][0] + 1}: {json.dumps(t['ev'][min(rej[0][0], len(t['ev']) - 1)])[:400]}")
+        say(f"  rejected at event {list(rej.values())[0][0] + 1}: {json.dumps(t["ev"][min(list(rej.values())[0][0], len(t["ev"]) - 1)])[:400]}")
         return 1
     say("replay: trace accepted by the spec")
     return 0
